@@ -28,7 +28,7 @@ def run(c):
     if stats.n != total_cases - 0 and not c.violations:
         raise vf.FrameworkError("executed %d of %d emitted cases" % (stats.n, total_cases))
     # code -> spec: fixtures and byte-level mutations of real streams, judged by TLC
-    scen = E.fixture_scenarios() + E.mutated_streams(c, 1500 if c.quick else 20000, start=100)
+    scen = E.fixture_scenarios() + E.mutated_streams(c, 1500 if c.quick else 60000, start=100)
     nobs = E.observe(c, scen)
     c.cov["evaluations"] = total_cases + nobs
     c.cov["traces_validated_against_impl"] = total_cases + nobs
